@@ -829,6 +829,47 @@ func runC07(r *Run) {
 		}
 		r.Floor("R14", "math/big calls on contract.Value() in precompile code", nV, 1)
 	}
+	r.Rule("R15", "FLOW.the-declared-fee-is-owed-at-the-cap: on the Cosmos routes the price cap is the declared fee divided by the gas limit, rounded down. Where that cap itself is the effective price (no tip limit, or a tip limit above it) the fee checker returns the declared fee — not cap × gas, which drops fee mod gas: with a fractional minimum gas price and no base fee a transaction declaring exactly gasLimit × MinGasPrice (the amount MinGasPriceDecorator accepted) otherwise pays only floor(MinGasPrice) × gasLimit")
+	if nf, ok := P.FnOK("app/ante/evm.NewDynamicFeeChecker"); ok && len(nf.AnonFuncs) >= 1 {
+		cl := nf.AnonFuncs[0]
+		okSel := false
+		eachInstr(cl, func(in ssa.Instruction) {
+			ph, isPhi := in.(*ssa.Phi)
+			if !isPhi || namedName(ph.Type()) != "Int" {
+				return
+			}
+			hasFee, hasProduct := false, false
+			for _, e := range ph.Edges {
+				sl := backSlice(e)
+				if c, ok := stripValue(e).(*ssa.Call); ok && strings.HasPrefix(callInfo(c).Name, "AmountOf") {
+					hasFee = true
+				}
+				if sl.HasCall(func(g CallInfo) bool { return g.Name == "EffectiveGasPrice" }) && sl.HasCall(func(g CallInfo) bool { return g.Name == "Mul" }) {
+					hasProduct = true
+				}
+			}
+			if !hasFee || !hasProduct {
+				return
+			}
+			// the choice is made by Equal(effective price, cap)
+			for _, pred := range ph.Block().Preds {
+				for b := pred; b != nil; b = b.Idom() {
+					if iff, ok := lastIf(b); ok {
+						if c, ok := iff.Cond.(*ssa.Call); ok && callInfo(c).Name == "Equal" {
+							sl := backSlice(callArgs(c)...)
+							if sl.HasCall(func(g CallInfo) bool { return g.Name == "EffectiveGasPrice" }) && sl.HasCall(func(g CallInfo) bool { return g.Name == "Quo" }) {
+								okSel = true
+							}
+						}
+					}
+				}
+			}
+		})
+		r.Check(okSel, "R15", fnID(cl)+"#declared-fee-at-the-cap", P.Pos(fnPos(cl)), "the charged amount is the declared fee where the effective price equals the cap",
+			"the Cosmos-route fee checker always charges effective price × gas: at the cap that is (fee div gas) × gas, which drops fee mod gas — a transaction declaring exactly the minimum fee pays less than gasLimit × MinGasPrice when the minimum is fractional and no base fee applies")
+	} else {
+		r.Bad("R15", "anchor/NewDynamicFeeChecker", "", "not found")
+	}
 	r.Rule("R11", "see C03 R5 (imported): the account that is charged the up-front fee and the account that receives the refund are both MsgEthereumTx.From — which arrives empty (EthValidateBasicDecorator refuses a pre-filled one in every mode) and has one writer, the signature decorator, storing the recovered signer unconditionally: otherwise the fee is deducted from an account named by whoever assembled the wrapper while the refund goes to the signer")
 	r.Import("R11/C03.", []string{"R5"}, runC03)
 	r.Rule("R12", "see C05 R4 (imported): the refund counter is revertible StateDB state — every write to it is journalled and nothing but AddRefund/SubRefund and a journal revert writes it; a Commit that zeroes it (go-ethereum's Finalise does, but Haqq's precompiles commit in the middle of a transaction) drops the storage refunds earned before a precompile call and the sender is charged for gas he was owed")
